@@ -119,6 +119,10 @@ def conc_field(f, tg):
     else:
         t = f['kind']
     d = dict(name=snake(f['name']), number=f['number'])
+    if d['name'] != d['name'].lower():
+        # json_name is optional in a descriptor (protoc fills it in, other producers need not): a name with capitals and no
+        # json_name must still get the standard mapping (userID -> userID), which lower-casing helpers get wrong
+        d['json_name'] = ''
     if f['card'] == 'map':
         d['type'] = f"map:{f['key']},{t}"
     else:
@@ -487,7 +491,7 @@ def main(chk, args):
                 by_key[k] = dict(kind='file', tops=sorted(c['tops']), manifest=sorted(c['manifest']))
                 subjects.append(by_key[k])
     # (generation time explodes for large messages that refer to their enclosing messages at depth >= 3, see report)
-    bigs = [big_subject(1, 'b', ['type', 'format', 'any', 'max', 'self', 'next', 'list', 'display_name', 'ignore_unknown_fields'], light=quick),
+    bigs = [big_subject(1, 'b', ['type', 'format', 'any', 'max', 'self', 'next', 'list', 'display_name', 'ignore_unknown_fields', 'userID', 'x2FA'], light=quick),
             big_subject(2, 'a', ['all', 'license', 'object', 'hash', 'cls', 'zip', 'item_v2'], light=True)]
     if not quick:
         bigs.append(big_subject(1, 'a', ['range', 'open', 'dir', 'help', 'min'], light=False))
